@@ -7,14 +7,19 @@ import re
 from ..env import Handler, Probe
 from ..model import Model
 
-_WS = re.compile(r"\n *")
+_TAG = re.compile(r"(<[^>]*>)")
+_WS = re.compile(r"[ \n]+")
 
 
 def norm_out(s: str) -> str:
-    # tal:repeat separates iterations by a newline plus indentation copied
-    # from the source layout; generated sources contain no newlines, so
-    # every newline in the output is such a separator
-    return _WS.sub("", s)
+    # tal:repeat separates iterations by whitespace copied from the source
+    # layout (a newline plus indentation, or indentation only).  Generated
+    # sources and probe values contain no whitespace outside tags, so all
+    # whitespace outside tags in the output is such a separator.
+    parts = _TAG.split(s)
+    for i in range(0, len(parts), 2):
+        parts[i] = _WS.sub("", parts[i])
+    return "".join(parts)
 
 
 def run_real(template, tmpl: dict, plan: list, handler_cfg) -> dict:
